@@ -36,6 +36,8 @@ func main() {
 		os.Exit(cmdReplay(os.Args[2:]))
 	case "oracle":
 		os.Exit(cmdOracle(os.Args[2:]))
+	case "tv":
+		os.Exit(cmdTV(os.Args[2:]))
 	default:
 		fmt.Fprintln(os.Stderr, "unknown command")
 		os.Exit(2)
@@ -122,6 +124,37 @@ func cmdOracle(args []string) int {
 	out, err := L.GoTestNative("z80", "^TestVOracleZex$", []string{"VERIF_ORACLE=" + mode}, "60m")
 	fmt.Println(lastLines(out, 12))
 	if err != nil {
+		return 1
+	}
+	return 0
+}
+
+// tv: translator validation on its own.
+func cmdTV(args []string) int {
+	per := 2
+	every := 9
+	if len(args) > 0 && args[0] == "thorough" {
+		per, every = 11, 1
+	}
+	L, err := Load([]string{"z80"})
+	if err != nil {
+		fmt.Fprintln(os.Stderr, err)
+		return 2
+	}
+	defer L.Close()
+	r := &Runner{L: L, solver: "z3", timeoutMs: 20000, workers: 16}
+	var encs []Enc
+	for i, e := range allEncodings() {
+		if i%every == 0 {
+			encs = append(encs, e)
+		}
+	}
+	res := r.TranslatorValidation(encs, per, 1)
+	fmt.Printf("translator validation: vectors=%d agreed=%d nopath=%d mismatches=%d\n", res.Vectors, res.Agreed, res.NoPath, len(res.Mismatches))
+	for _, m := range res.Mismatches {
+		fmt.Println("  ", m)
+	}
+	if len(res.Mismatches) > 0 || res.Agreed != res.Vectors {
 		return 1
 	}
 	return 0
